@@ -13,6 +13,7 @@ from . import tlc
 from .common import Report, shrink, use_repo, jdump
 
 UTC = datetime.timezone.utc
+PROPS = ("C10",)
 
 
 def ts_of(s):
@@ -315,7 +316,7 @@ def _abstract(hist):
     return out
 
 
-def run(tier):
+def run(tier, pid="C10"):
     use_repo()
     rep = Report(
         "C10",
@@ -376,3 +377,18 @@ def run(tier):
     rep.exhaustive = False
     rep.extra["explanation"] = "exhaustive for the mc/exp configs (bounds in spec/stream/sr_*.cfg); random for sim configs"
     return rep.finish()
+
+
+def replay_file(path, pid="C10"):
+    import json
+
+    use_repo()
+    v = json.load(open(path))
+    sc = v["scenario"]
+    bad = replay(sc["behaviour"], sc["consumer"])
+    if bad:
+        print("VIOLATION property=C10 replay=%s" % path)
+        print("  step=%s clause=%s expected=%r observed=%r" % bad)
+        return 1
+    print("replay: behaviour conforms")
+    return 0
